@@ -184,6 +184,53 @@ def _expect_response():
     return _request.Response
 
 
+
+def after_eof(ctx):
+    """a connection that ended early stays an error: after a call failed because the peer closed before a whole PDU arrived (EOF at several
+    offsets), a further call on the SAME client object fails promptly too — it neither hangs nor reads anything as a reply (both clients)"""
+    from dpapi_ng import _rpc as r
+    from dpapi_ng._rpc import _request
+    reply = rpcfmt.finalize(_request.Response(header=r.PDUHeader(5, 0, r.PacketType.RESPONSE, r.PacketFlags(3), r.DataRep(), 0, 0, 1), sec_trailer=None, alloc_hint=64,
+                                               context_id=0, cancel_count=0, stub_data=bytes(64)))
+    for k in (0, 7, 16, 40, len(reply) - 1):
+        # sync
+        sock = rpcsim.FakeSocket(chunks=[reply[:k]] if k else [])
+        c = rpcsim.sync_client(sock)
+        outs = []
+        for _ in range(2):
+            try:
+                c._send_pdu(rpcfmt.rand_pdu(__import__("random").Random(1), 0), _expect_response())
+                outs.append("ok")
+            except Exception as e:  # noqa
+                outs.append("err " + canon_exc(e))
+        ctx.count("after_eof:sync")
+        if not all(o.startswith("err") for o in outs):
+            ctx.violation("sync client: a call after the connection ended early is not an error", {"scenario": "after_eof", "eof_at": k}, str(outs), "two errors")
+            return
+
+        async def go():
+            reader = asyncio.StreamReader()
+            if k:
+                reader.feed_data(reply[:k])
+            reader.feed_eof()
+            ac = rpcsim.async_client(reader, rpcsim.FakeWriter())
+            res = []
+            for _ in range(2):
+                try:
+                    await asyncio.wait_for(ac._send_pdu(rpcfmt.rand_pdu(__import__("random").Random(1), 0), _expect_response()), 3)
+                    res.append("ok")
+                except asyncio.TimeoutError:
+                    res.append("hang")
+                except Exception as e:  # noqa
+                    res.append("err " + canon_exc(e))
+            return res
+        outs = asyncio.run(go())
+        ctx.count("after_eof:async")
+        if not all(o.startswith("err") for o in outs):
+            ctx.violation("async client: a call after the connection ended early hangs or is not an error", {"scenario": "after_eof", "eof_at": k}, str(outs), "two prompt errors")
+            return
+
+
 def run(ctx):
     prelude.validate(ctx)
     rng = ctx.rng
@@ -242,6 +289,7 @@ def run(ctx):
     for i in range(0, len(cases), 4000):
         ctx.compare_batch(cases[i:i + 4000], nontrivial=lambda line, impl: "," in line or impl.startswith("err"))
     two_connections(ctx)
+    after_eof(ctx)
 
 
 def search(ctx, broken, disagreements):
